@@ -2,6 +2,7 @@
    Mirrors bionumpy/io/indexed_fasta.py (__getitem__, get_interval_sequences,
    get_contig_lengths) and bionumpy/io/multiline_buffer.py (FastaIdxBuffer.get_data).
    Executable definitions only; proofs live in Proofs/C17.v. *)
+From Coq Require Import String.
 From Coq Require Import ZArith List Bool.
 From BNP Require Import Base.Prims.
 Import ListNotations.
@@ -86,12 +87,23 @@ Definition model_index (file : list Z) : list idx := build_index None (with_offs
 (* f.seek(off); f.read(n) *)
 Definition read_at (file : list Z) (off n : Z) : list Z := slice off (off + n) file.
 
+(* the offset arithmetic, as named helpers: Bridge/C17.v proves that the definitions regenerated from
+   /repo on every run (Gen/C17.v) are equal to these *)
+Definition m_n_rows (rlen lenc : Z) : Z := (rlen + lenc - 1) / lenc.
+Definition m_bytes_to_read (rlen lenc lenb : Z) : Z :=
+  (m_n_rows rlen lenc - 1) * lenb + (rlen - (m_n_rows rlen lenc - 1) * lenc).
+Definition m_phys (lenc lenb x : Z) : Z := (x / lenc) * lenb + x mod lenc.     (* byte offset of base x *)
+Definition m_read_start (offset lenc lenb a : Z) : Z := offset + m_phys lenc lenb a.
+Definition m_read_len (lenc lenb a b : Z) : Z := m_phys lenc lenb b - m_phys lenc lenb a.
+Definition m_n_del (lenc a b : Z) : Z := b / lenc - a / lenc.
+Definition m_del_index (lenb start_mod j : Z) : Z := lenb * (j + 1) - 1 - start_mod.
+
 (* IndexedFasta.__getitem__ : read the block, view it as n_rows rows of lenb bytes (the unread
    tail of the np.empty buffer is arbitrary: [fill]), keep the first lenc columns, ravel, trim. *)
 Definition fetch_contig (fill : list Z) (ix : idx) (file : list Z) : list Z :=
   let lenb := i_lenb ix in let rlen := i_rlen ix in let lenc := i_lenc ix in
-  let n_rows := (rlen + lenc - 1) / lenc in
-  let bytes_to_read := (n_rows - 1) * lenb + (rlen - (n_rows - 1) * lenc) in
+  let n_rows := m_n_rows rlen lenc in
+  let bytes_to_read := m_bytes_to_read rlen lenc lenb in
   let data := read_at file (i_offset ix) bytes_to_read
               ++ firstn (Z.to_nat (lenb * n_rows - bytes_to_read)) fill in
   let rows := chunks_of (Z.to_nat lenb) data in
@@ -100,14 +112,16 @@ Definition fetch_contig (fill : list Z) (ix : idx) (file : list Z) : list Z :=
 (* get_interval_sequences (both variants use the same arithmetic) *)
 Definition fetch_interval (ix : idx) (file : list Z) (a b : Z) : list Z :=
   let lenb := i_lenb ix in let lenc := i_lenc ix in
-  let start_row := a / lenc in let start_mod := a mod lenc in
-  let start_offset := start_row * lenb + start_mod in
-  let stop_row := b / lenc in
-  let stop_offset := stop_row * lenb + b mod lenc in
-  let tmp := read_at file (i_offset ix + start_offset) (stop_offset - start_offset) in
-  np_delete tmp (map (fun j => lenb * (j + 1) - 1 - start_mod) (arange (stop_row - start_row))).
+  let tmp := read_at file (m_read_start (i_offset ix) lenc lenb a) (m_read_len lenc lenb a b) in
+  np_delete tmp (map (m_del_index lenb (a mod lenc)) (arange (m_n_del lenc a b))).
 
 (* get_contig_lengths: which index column is reported.  The code at the pinned commit returned
    lenc (bases per line); the repaired code returns rlen. *)
-Definition contig_length (ix : idx) : Z := i_rlen ix.
+Definition column (name : String.string) (ix : idx) : option Z :=
+  if String.eqb name "rlen"%string then Some (i_rlen ix)
+  else if String.eqb name "lenc"%string then Some (i_lenc ix)
+  else if String.eqb name "lenb"%string then Some (i_lenb ix)
+  else if String.eqb name "offset"%string then Some (i_offset ix) else None.
+Definition contig_length_column : String.string := "rlen"%string.
+Definition contig_length (ix : idx) : Z := match column contig_length_column ix with Some v => v | None => -1 end.
 Definition contig_length_pinned (ix : idx) : Z := i_lenc ix.
